@@ -126,6 +126,58 @@ def empty_chunk_pass(ctx, model, nptdms, stats):
     return out
 
 
+def daqmx_pass(ctx, model, nptdms, stats):
+    """DAQmx channels (format-changing and digital-line scalers of every integer / float type, 1-3 scalers, several buffers, segments
+    and chunks) made readable through `NI_Number_Of_Scales` (the scaled data is then the scaler with the highest listed id):
+    every read of every kind has channel.dtype, full reads have len(channel) elements"""
+    import gen_daqmx
+    out = []
+    rnd = ctx.rnd
+    stats["daqmx_channels"] = 0
+    for _ in range(ctx.n(60, 1500)):
+        segs = gen_daqmx.draw(rnd, allow_props=False)
+        done = set()
+        for sg in segs:
+            for ob in sg["objs"]:
+                if ob["idx"][0] == "D" and ob["path"] not in done:
+                    done.add(ob["path"])
+                    sid = rnd.choice([sc[4] for sc in ob["idx"][4]])
+                    ob["props"] = list(ob["props"]) + [gs.P_u32("NI_Number_Of_Scales", sid + 1)]
+        e = model.ask(gen_files.to_line(segs))
+        if not e.get("ok") or not e.get("wf"):
+            continue
+        d = bytes.fromhex(e["file"])
+        for lazy in (False, True):
+            try:
+                f = (nptdms.TdmsFile.open if lazy else nptdms.TdmsFile.read)(io.BytesIO(d))
+            except Exception:
+                break
+            for g in f.groups():
+                for ch in g.channels():
+                    try:
+                        declared, n = np.dtype(ch.dtype), len(ch)
+                    except Exception:
+                        continue
+                    stats["daqmx_channels"] += 1
+                    info = dict(kind="daqmx", file=d.hex(), lazy=lazy, group=g.name, channel=ch.name)
+                    for label, arr in reads_of(ch, lazy, n):
+                        stats["reads"] += 1
+                        if isinstance(arr, Exception):
+                            continue        # reads that fail are C11's matter (missing scaler ids, ...)
+                        if not isinstance(arr, np.ndarray):
+                            out.append(Violation("DAQmx channel %r: %s returned a %s, not an array (%s)" % (ch.path, label, type(arr).__name__, "lazy" if lazy else "eager"), dict(info, read=label)))
+                        elif not same(arr.dtype, declared, label):
+                            out.append(Violation("DAQmx channel %r: %s has dtype %s but channel.dtype is %s (%s, %d values)" % (
+                                ch.path, label, arr.dtype, declared, "lazy" if lazy else "eager", len(arr)), dict(info, read=label)))
+                        elif label in ("[:]", "read_data()", ".data") and len(arr) != n:
+                            out.append(Violation("DAQmx channel %r: %s has %d elements, len(channel)=%d" % (ch.path, label, len(arr), n), dict(info, read=label)))
+            if lazy:
+                f.close()
+            if len(out) >= 3:
+                return out
+    return out
+
+
 def run(ctx):
     nptdms = ctx.nptdms()
     model = ctx.get_model() if ctx.build_ok else None
@@ -255,6 +307,8 @@ def run(ctx):
             break
     if len(violations) < 5:
         violations += empty_chunk_pass(ctx, model, nptdms, stats)
+    if len(violations) < 5:
+        violations += daqmx_pass(ctx, model, nptdms, stats)
     import shutil
     shutil.rmtree(memdir, ignore_errors=True)
     return dict(violations=violations[:5], disagreements=disagreements[:20],
@@ -262,7 +316,7 @@ def run(ctx):
                               rule="eager, lazy and lazy with memmap_dir; every readable raw type (17) x {no scaling, Linear, Polynomial, Table, Add, Subtract, RTD, Strain, Thermistor, Thermocouple, AdvancedAPI, "
                                    "random graph} (scalings on numeric types) x {eager, lazy} x {[:], read_data(), windows incl. empty and out-of-range, slices incl. empty and "
                                    "stepped, integer index, .data, every channel chunk} with 0-7 values split over two segments, both byte orders; distinct_nontrivial = "
-                                   "distinct (raw type, scale kind, empty?) combinations",
+                                   "distinct (raw type, scale kind, empty?) combinations; plus generated DAQmx files (format-changing and digital-line scalers of every type) made readable through NI_Number_Of_Scales: every read of every kind against channel.dtype",
                               samples=samples or [dict(note="none")], counts=stats))
 
 
@@ -277,7 +331,7 @@ def replay(ctx, path):
         rp = json.load(f)["replay"]
     nptdms = ctx.nptdms()
     f = (nptdms.TdmsFile.open if rp.get("lazy") else nptdms.TdmsFile.read)(io.BytesIO(bytes.fromhex(rp["file"])))
-    ch = f["g"]["c"]
+    ch = f[rp.get("group", "g")][rp.get("channel", "c")]
     bad = [(l, a.dtype) for l, a in reads_of(ch, rp.get("lazy"), len(ch)) if isinstance(a, np.ndarray) and not same(a.dtype, ch.dtype, l)]
     print("replay: channel.dtype=%s; reads with another dtype: %s" % (ch.dtype, bad or "none"))
     return 1 if bad else 0
